@@ -3,6 +3,7 @@
 package main
 
 import (
+	"context"
 	"crypto"
 	"crypto/x509"
 	"encoding/base64"
@@ -39,7 +40,19 @@ import (
 //     equal to the outcome on a fresh instance;
 // (c) a free-running -race pass of the same scenario bodies (supporting; sampling).
 
-const c17Alg = dsig.ECDSASHA512SignatureMethod
+const c17AlgConfigured = dsig.ECDSASHA512SignatureMethod
+
+// c17Flavor selects the provider the scenarios run on: 0 = a non-default algorithm and
+// canonicaliser are configured; 1 = neither is configured (library defaults apply, and anything
+// one operation writes into the shared signing context shows in the next message). It is set
+// per scenario; executions are sequential.
+var c17Flavor int
+
+// what a message signed by the provider of each flavour declares, and how its signing context
+// reads: flavour 0 from the configuration, flavour 1 taken from calls made alone at start
+var c17WantAlg = [2]string{c17AlgConfigured, ""}
+var c17WantCanon = [2]string{idp.C14NExc, ""}
+var c17WantCtx = [2]string{fmt.Sprintf("hash=%v method=%s canon=%s", crypto.SHA512, c17AlgConfigured, idp.C14NExc), ""}
 
 func c17SP() *saml2.SAMLServiceProvider {
 	sp := world.SP()
@@ -51,15 +64,32 @@ func c17SP() *saml2.SAMLServiceProvider {
 	// a P-256 signer through the setter (fast), a non-default algorithm and canonicaliser so
 	// that a half-initialised signing context (sha256 / c14n11 defaults) is observable
 	sp.SetSPSigningKeyStore(world.SetterKeyStore("KE"))
-	sp.SignAuthnRequestsAlgorithm = c17Alg
-	sp.SignAuthnRequestsCanonicalizer = dsig.MakeC14N10ExclusiveCanonicalizerWithPrefixList("")
+	if c17Flavor == 0 {
+		sp.SignAuthnRequestsAlgorithm = c17AlgConfigured
+		sp.SignAuthnRequestsCanonicalizer = dsig.MakeC14N10ExclusiveCanonicalizerWithPrefixList("")
+	}
 	// a context list with a blank entry in the middle and a repeated one: anything that
 	// "tidies" the configured slice in place while building shows in the configuration snapshot
 	sp.RequestedAuthnContext = &saml2.RequestedAuthnContext{Comparison: saml2.AuthnPolicyMatchExact, Contexts: []string{saml2.AuthnContextPasswordProtectedTransport, " ", "urn:example:third", "urn:example:third"}}
 	return sp
 }
 
-var c17Ops = []string{"SigningContext", "BuildAuthRequest", "BuildLogoutRequestDocument", "BuildLogoutResponseDocument", "BuildAuthURLRedirect", "ValidateEncodedResponse(A)", "ValidateEncodedResponse(B)", "RetrieveAssertionInfo(A)", "Metadata", "ValidateLogoutRequest", "GetSigningCertBytes", "BuildAuthBodyPost(relay-one)", "BuildAuthBodyPost(relay-two)", "BuildAuthURL(relay-one)", "BuildLogoutBodyPost", "BuildLogoutResponseBodyPost", "BuildLogoutURLRedirect", "ValidateLogoutResponse", "DecodeUnverifiedBaseResponse", "ValidateEncodedResponse(E)", "ValidateEncodedResponse(X)", "ValidateEncodedResponse(D)", "ValidateEncodedResponse(D2)"}
+var c17Ops = []string{"SigningContext", "BuildAuthRequest", "BuildLogoutRequestDocument", "BuildLogoutResponseDocument", "BuildAuthURLRedirect", "ValidateEncodedResponse(A)", "ValidateEncodedResponse(B)", "RetrieveAssertionInfo(A)", "Metadata", "ValidateLogoutRequest", "GetSigningCertBytes", "BuildAuthBodyPost(relay-one)", "BuildAuthBodyPost(relay-two)", "BuildAuthURL(relay-one)", "BuildLogoutBodyPost", "BuildLogoutResponseBodyPost", "BuildLogoutURLRedirect", "ValidateLogoutResponse", "DecodeUnverifiedBaseResponse", "ValidateEncodedResponse(E)", "ValidateEncodedResponse(X)", "ValidateEncodedResponse(D)", "ValidateEncodedResponse(D2)",
+	// F is an unsigned Response whose assertion is signed by a key that only ANOTHER provider in the
+	// process trusts (another tenant / another IdP): refused here, honoured there
+	"ValidateEncodedResponse(F)", "tenant2:ValidateEncodedResponse(F)", "tenant2:ValidateEncodedResponse(A)",
+	// a key store without a signer is refused by the setters; the provider stays usable
+	"SetSPSigningKeyStore(no signer)", "SetSPKeyStore(no signer)"}
+
+// c17Tenant2 is the second provider of the execution in progress (executions are sequential): the
+// same configuration as the first but for its certificate store, which trusts only KA.
+var c17Tenant2 *saml2.SAMLServiceProvider
+
+func c17NewTenant2() *saml2.SAMLServiceProvider {
+	sp := c17SP()
+	sp.IDPCertificateStore = world.Store("KA")
+	return sp
+}
 
 var (
 	c17Once                        sync.Once
@@ -71,6 +101,7 @@ var (
 	c17MsgX, c17ErrX string
 	// two different DEFLATE-compressed messages (one Response-signed, one with two signed assertions)
 	c17MsgD, c17MsgD2, c17TupD, c17TupD2 string
+	c17MsgF, c17ErrF, c17TupF2, c17ErrA2 string
 )
 
 func c17Init() {
@@ -115,6 +146,33 @@ func c17Init() {
 		rd, _ := validateResponse(c17SP(), c17MsgD)
 		rd2, _ := validateResponse(c17SP(), c17MsgD2)
 		c17TupD, c17TupD2 = oracle.FromResponse(rd).Key()+"true", oracle.FromResponse(rd2).Key()+"false"
+		f := idp.DefaultResponse(1)
+		uniq(&f, "c17f")
+		f.Assertions[0].Sign = idp.SignSpec{Key: "KA"}
+		f.Assertions[0].NameID = evilName
+		c17MsgF = idp.RenderResponse(f)
+		_, rf := validateResponse(c17SP(), c17MsgF)
+		c17ErrF = rf.Err.Text
+		rf2, _ := validateResponse(c17NewTenant2(), c17MsgF)
+		c17TupF2 = oracle.FromResponse(rf2).Key() + "false"
+		_, ra2 := validateResponse(c17NewTenant2(), c17MsgA)
+		c17ErrA2 = ra2.Err.Text
+		// the defaults flavour: what one call made alone declares
+		c17Flavor = 1
+		alone := c17SP()
+		c17WantCtx[1] = c17Do(alone, opIdx("SigningContext")).Text
+		if x, err := c17SP().BuildAuthRequest(); err == nil {
+			d := etree.NewDocument()
+			if d.ReadFromString(x) == nil {
+				if a := d.Root().FindElement("./Signature/SignedInfo/SignatureMethod"); a != nil {
+					c17WantAlg[1] = a.SelectAttrValue("Algorithm", "")
+				}
+				if a := d.Root().FindElement("./Signature/SignedInfo/CanonicalizationMethod"); a != nil {
+					c17WantCanon[1] = a.SelectAttrValue("Algorithm", "")
+				}
+			}
+		}
+		c17Flavor = 0
 		ra, _ := validateResponse(c17SP(), c17MsgA)
 		rb, _ := validateResponse(c17SP(), c17MsgB)
 		c17TupA, c17TupB = oracle.FromResponse(ra).Key(), oracle.FromResponse(rb).Key()
@@ -138,7 +196,29 @@ func c17Do(sp *saml2.SAMLServiceProvider, op int) (o c17Obs) {
 			o.Panic = fmt.Sprint(r)
 		}
 	}()
+	if strings.HasPrefix(c17Ops[op], "tenant2:") {
+		sp = c17Tenant2
+	}
 	switch c17Ops[op] {
+	case "SetSPSigningKeyStore(no signer)", "SetSPKeyStore(no signer)":
+		var err error
+		if strings.HasPrefix(c17Ops[op], "SetSPSigning") {
+			err = sp.SetSPSigningKeyStore(&saml2.KeyStore{Cert: world.Cert("KE").Raw})
+		} else {
+			err = sp.SetSPKeyStore(&saml2.KeyStore{Cert: world.Cert("KS").Raw})
+		}
+		o.Text = fmt.Sprint("refused=", err != nil)
+	case "ValidateEncodedResponse(F)", "tenant2:ValidateEncodedResponse(F)", "tenant2:ValidateEncodedResponse(A)":
+		m := c17MsgF
+		if strings.HasSuffix(c17Ops[op], "(A)") {
+			m = c17MsgA
+		}
+		r, err := sp.ValidateEncodedResponse(m)
+		if err != nil {
+			o.Err = err.Error()
+		} else {
+			o.Text = oracle.FromResponse(r).Key() + fmt.Sprint(r.SignatureValidated)
+		}
 	case "SigningContext":
 		ctx := sp.SigningContext()
 		// observed at return time: must already be fully configured
@@ -285,6 +365,28 @@ func c17Judge(o c17Obs) string {
 	if o.Panic != "" {
 		return "panic: " + o.Panic
 	}
+	switch c17Ops[o.Op] {
+	case "ValidateEncodedResponse(F)":
+		if o.Err == "" || o.Err != c17ErrF {
+			return fmt.Sprintf("a Response whose assertion only another provider's store vouches for gave error %q (accepted: %.200q), alone it is rejected with %q", o.Err, o.Text, c17ErrF)
+		}
+		return ""
+	case "tenant2:ValidateEncodedResponse(A)":
+		if o.Err == "" || o.Err != c17ErrA2 {
+			return fmt.Sprintf("the second provider: error %q (accepted: %.200q), alone it rejects with %q", o.Err, o.Text, c17ErrA2)
+		}
+		return ""
+	case "tenant2:ValidateEncodedResponse(F)":
+		if o.Err != "" || o.Text != c17TupF2 {
+			return fmt.Sprintf("the second provider: error %q result %.200q, alone it accepts", o.Err, o.Text)
+		}
+		return ""
+	case "SetSPSigningKeyStore(no signer)", "SetSPKeyStore(no signer)":
+		if o.Text != "refused=true" {
+			return "a key store without a signer was not refused"
+		}
+		return ""
+	}
 	if c17Ops[o.Op] == "ValidateEncodedResponse(X)" {
 		if o.Err == "" || o.Err != c17ErrX {
 			return fmt.Sprintf("the expired response gave error %q (accepted: %q), alone it is rejected with %q", o.Err, o.Text, c17ErrX)
@@ -308,10 +410,10 @@ func c17Judge(o c17Obs) string {
 			return "signature does not verify: " + err.Error()
 		}
 		sig := d.Root().FindElement("./Signature")
-		if a := sig.FindElement("./SignedInfo/SignatureMethod"); a.SelectAttrValue("Algorithm", "") != c17Alg {
+		if a := sig.FindElement("./SignedInfo/SignatureMethod"); a.SelectAttrValue("Algorithm", "") != c17WantAlg[c17Flavor] {
 			return "declared signature method " + a.SelectAttrValue("Algorithm", "") + " is not the configured one"
 		}
-		if a := sig.FindElement("./SignedInfo/CanonicalizationMethod"); a.SelectAttrValue("Algorithm", "") != idp.C14NExc {
+		if a := sig.FindElement("./SignedInfo/CanonicalizationMethod"); a.SelectAttrValue("Algorithm", "") != c17WantCanon[c17Flavor] {
 			return "declared canonicaliser " + a.SelectAttrValue("Algorithm", "") + " is not the configured one"
 		}
 		n, err := recipient.Parse([]byte(s))
@@ -322,8 +424,7 @@ func c17Judge(o c17Obs) string {
 	}
 	switch c17Ops[o.Op] {
 	case "SigningContext":
-		want := fmt.Sprintf("hash=%v method=%s canon=%s", crypto.SHA512, c17Alg, idp.C14NExc)
-		if o.Text != want {
+		if want := c17WantCtx[c17Flavor]; o.Text != want {
 			return "signing context observed half-configured: " + o.Text
 		}
 	case "BuildAuthRequest":
@@ -340,7 +441,7 @@ func c17Judge(o c17Obs) string {
 				alg, _ = recipient.PctDecode(p.RawValue)
 			}
 		}
-		if alg != c17Alg {
+		if alg != c17WantAlg[c17Flavor] {
 			return "redirect SigAlg " + alg + " is not the configured one"
 		}
 	case "BuildAuthBodyPost(relay-one)", "BuildAuthBodyPost(relay-two)":
@@ -428,7 +529,7 @@ func c17Judge(o c17Obs) string {
 				relay = p.RawValue
 			}
 		}
-		if alg != c17Alg || relay != "logout-url-relay" {
+		if alg != c17WantAlg[c17Flavor] || relay != "logout-url-relay" {
 			return fmt.Sprintf("logout redirect carries SigAlg %q RelayState %q", alg, relay)
 		}
 	case "BuildAuthURL(relay-one)":
@@ -472,6 +573,10 @@ type c17Scenario struct {
 	Threads [][]int // op indices per thread
 }
 
+// Defaults: a scenario whose name starts with "defaults:" runs on a provider with no algorithm
+// and no canonicaliser configured.
+func (sc c17Scenario) Defaults() bool { return strings.HasPrefix(sc.Name, "defaults:") }
+
 func opIdx(name string) int {
 	for i, n := range c17Ops {
 		if n == name {
@@ -498,6 +603,12 @@ func c17Scenarios(thorough bool) []c17Scenario {
 		{"Validate(E) || Validate(E)", [][]int{{o("ValidateEncodedResponse(E)")}, {o("ValidateEncodedResponse(E)")}}},
 		{"Validate(E) || Validate(A);Validate(E)", [][]int{{o("ValidateEncodedResponse(E)")}, {o("ValidateEncodedResponse(A)"), o("ValidateEncodedResponse(E)")}}},
 		{"Validate(compressed) || Validate(another compressed);Validate(compressed)", [][]int{{o("ValidateEncodedResponse(D)")}, {o("ValidateEncodedResponse(D2)"), o("ValidateEncodedResponse(D)")}}},
+		{"defaults: BuildLogoutResponseDocument;BuildAuthRequest || BuildLogoutRequestDocument", [][]int{{o("BuildLogoutResponseDocument"), o("BuildAuthRequest")}, {o("BuildLogoutRequestDocument")}}},
+		{"defaults: SigningContext;BuildLogoutResponseBodyPost || BuildAuthURLRedirect;SigningContext", [][]int{{o("SigningContext"), o("BuildLogoutResponseBodyPost")}, {o("BuildAuthURLRedirect"), o("SigningContext")}}},
+		{"two providers: Validate(F) || tenant2:Validate(F);tenant2:Validate(A)", [][]int{{o("ValidateEncodedResponse(F)")}, {o("tenant2:ValidateEncodedResponse(F)"), o("tenant2:ValidateEncodedResponse(A)")}}},
+		{"two providers: Validate(F);Validate(A) || tenant2:Validate(A);tenant2:Validate(F)", [][]int{{o("ValidateEncodedResponse(F)"), o("ValidateEncodedResponse(A)")}, {o("tenant2:ValidateEncodedResponse(A)"), o("tenant2:ValidateEncodedResponse(F)")}}},
+		{"SetSPSigningKeyStore(no signer);BuildAuthRequest || SigningContext", [][]int{{o("SetSPSigningKeyStore(no signer)"), o("BuildAuthRequest")}, {o("SigningContext")}}},
+		{"SetSPKeyStore(no signer);BuildLogoutRequestDocument || SetSPSigningKeyStore(no signer);SigningContext", [][]int{{o("SetSPKeyStore(no signer)"), o("BuildLogoutRequestDocument")}, {o("SetSPSigningKeyStore(no signer)"), o("SigningContext")}}},
 		{"Validate(expired) || Validate(A)", [][]int{{o("ValidateEncodedResponse(X)")}, {o("ValidateEncodedResponse(A)")}}},
 		{"Validate(expired) || RetrieveAssertionInfo(A);Validate(expired)", [][]int{{o("ValidateEncodedResponse(X)")}, {o("RetrieveAssertionInfo(A)"), o("ValidateEncodedResponse(X)")}}},
 		{"3 threads: ValidateLogoutResponse || DecodeUnverifiedBaseResponse || ValidateLogoutRequest", [][]int{{o("ValidateLogoutResponse")}, {o("DecodeUnverifiedBaseResponse")}, {o("ValidateLogoutRequest")}}},
@@ -519,7 +630,13 @@ type c17Case struct {
 // c17Execute runs one scenario under the given chooser and returns finding keys.
 func c17Execute(sc c17Scenario, ch *mc.Chooser) (keys []string, detail string, res vsched.Result, obs [][]c17Obs) {
 	c17Init()
+	c17Flavor = 0
+	if sc.Defaults() {
+		c17Flavor = 1
+	}
+	defer func() { c17Flavor = 0 }()
 	sp := c17SP()
+	c17Tenant2 = c17NewTenant2()
 	obs = make([][]c17Obs, len(sc.Threads))
 	var bodies []func()
 	for ti, ops := range sc.Threads {
@@ -984,8 +1101,13 @@ func c17Inputs() []c17Input {
 func c17RacePass(iter int) {
 	c17Init()
 	for _, sc := range c17Scenarios(true) {
+		c17Flavor = 0
+		if sc.Defaults() {
+			c17Flavor = 1
+		}
 		for it := 0; it < iter; it++ {
 			sp := c17SP()
+			c17Tenant2 = c17NewTenant2()
 			var wg sync.WaitGroup
 			for rep := 0; rep < 4; rep++ {
 				for _, ops := range sc.Threads {
@@ -1011,7 +1133,7 @@ func c17Run(r *mc.Run) {
 	if r.Thorough() {
 		bound = 3
 	}
-	r.Rule = "(a) E-SCHED: every interleaving with <= 2 (quick) / <= 3 (thorough) preemptions (unbounded for the first-use race) of 18 (thorough 20) scenarios of 2-3 managed goroutines x 1-2 operations out of 23 (incl. two different DEFLATE-compressed Responses, a Response with an encrypted assertion and a Response whose bearer confirmation has expired, which must be rejected whatever runs beside it) on one shared SP with a non-default algorithm and canonicaliser, on an overlay build whose scheduling points are the sync shim operations plus a yield before every statement touching a written package-level variable or written SAMLServiceProvider field; oracle: no deadlock/panic, every call returns what it returns alone on a fresh SP, SigningContext fully configured when observed. (b) E-BFS over call histories: all sequences up to depth 3 (quick) / 4 (thorough) over 11 operations incl. scribbling over the previous result (every field, slice element and map entry reachable from it, in place); deep reflective snapshot of the configuration unchanged, outcome equal to a fresh instance and to the outcome of the same call before any result was written to (package-level state shared by all instances), and every result handed out earlier still unchanged after every later call. (c) free-running -race pass of the same bodies (sampling; supporting). (d) the exported validators that take a decoded struct (Validate, VerifyAssertionConditions, ValidateDecodedLogoutRequest/Response) on every Response within one profile fault of conforming (1-2 assertions, C03's menu), on Responses with one time bound padded by whitespace (3 bounds x 4 paddings), and on 4 variants of each logout message: a deep reflective snapshot of the struct is unchanged by the call. non-trivial = an execution with at least one preemption, or a history of length >= 2; distinct = distinct schedule / history"
+	r.Rule = "(a) E-SCHED: every interleaving with <= 2 (quick) / <= 3 (thorough) preemptions (unbounded for the first-use race) of 24 (thorough 26) scenarios (two with a second provider in the process whose certificate store trusts another key, two that start with a key store the setters refuse, two on a provider with no algorithm and no canonicaliser configured, judged against what each call declares alone) of 2-3 managed goroutines x 1-2 operations out of 28 (incl. two different DEFLATE-compressed Responses, a Response with an encrypted assertion and a Response whose bearer confirmation has expired, which must be rejected whatever runs beside it) on one shared SP with a non-default algorithm and canonicaliser, on an overlay build whose scheduling points are the sync shim operations plus a yield before every statement touching a written package-level variable or written SAMLServiceProvider field; oracle: no deadlock/panic, every call returns what it returns alone on a fresh SP, SigningContext fully configured when observed. (b) E-BFS over call histories: all sequences up to depth 3 (quick) / 4 (thorough) over 11 operations incl. scribbling over the previous result (every field, slice element and map entry reachable from it, in place); deep reflective snapshot of the configuration unchanged, outcome equal to a fresh instance and to the outcome of the same call before any result was written to (package-level state shared by all instances), and every result handed out earlier still unchanged after every later call. (c) free-running -race pass of the same bodies (sampling; supporting). (d) the exported validators that take a decoded struct (Validate, VerifyAssertionConditions, ValidateDecodedLogoutRequest/Response) on every Response within one profile fault of conforming (1-2 assertions, C03's menu), on Responses with one time bound padded by whitespace (3 bounds x 4 paddings), and on 4 variants of each logout message: a deep reflective snapshot of the struct is unchanged by the call. non-trivial = an execution with at least one preemption, or a history of length >= 2; distinct = distinct schedule / history"
 	r.Assume("scheduling points are sufficient only together with the race pass (c), which is sampling", "the overlay is regenerated from /repo's working tree on every run (instr report in evidence)")
 	if b, err := os.ReadFile(os.Getenv("VERIF_INSTR_REPORT")); err == nil {
 		var rep map[string]interface{}
@@ -1138,7 +1260,13 @@ func c17Run(r *mc.Run) {
 		if r.Thorough() {
 			iter = "200"
 		}
-		cmd := exec.Command(bin, "c17-racepass", iter)
+		limit := 6 * time.Minute
+		if r.Thorough() {
+			limit = 30 * time.Minute
+		}
+		ctx, cancel := context.WithTimeout(context.Background(), limit)
+		defer cancel()
+		cmd := exec.CommandContext(ctx, bin, "c17-racepass", iter)
 		cmd.Env = append(os.Environ(), "GORACE=halt_on_error=0 exitcode=66")
 		out, err := cmd.CombinedOutput()
 		s := string(out)
